@@ -40,6 +40,18 @@ def cases(ctx):
         prog, info = gv.gen_vanilla(rng, nq, rng.randrange(1, 5), use_load=use_load)
         yield {"kind": "direct", "nq": nq, "prog": prog, "debug": rng.random() < 0.3, "load": use_load,
                "loaded_two_qubit": info["loaded_two_qubit"], "script": [rng.randrange(2) for _ in range(40)]}
+    for _ in range(ctx.n(24, 2000)):
+        # long straight-line subroutines with many carbon-carbon gates (each borrows a scratch register for the electron)
+        nq = rng.choice([3, 4, 5])
+        prog = []
+        for v in range(nq):
+            prog += [["set", [["Q", 0], v]], ["qalloc", [["Q", 0]]], ["init", [["Q", 0]]], ["set", [["Q", 0], v]],
+                     [rng.choice(["h", "x", "k"]), [["Q", 0]]]]
+        for _j in range(rng.choice([15, 16, 17, 20, 24, 30])):
+            a, b = rng.sample(range(1, nq), 2) if nq >= 3 else (1, 2)
+            prog += [["set", [["Q", 0], a]], ["set", [["Q", 1], b]], [rng.choice(["cnot", "cphase"]), [["Q", 0], ["Q", 1]]]]
+        yield {"kind": "direct", "nq": nq, "prog": prog, "debug": False, "load": False, "loaded_two_qubit": False,
+               "script": [rng.randrange(2) for _ in range(8)]}
     for _ in range(ctx.n(300, 30000)):
         g = HostGen(rng, max_depth=rng.choice([2, 3]), allow_regs=False)
         g.p_cond_regmeas = 0.0
